@@ -410,6 +410,14 @@ class DFContainer:
         return wire
 
     def __setitem__(self, place: Place, port: Wire) -> None:
+        # Assigning to a struct field or tuple element invalidates any wire that an
+        # earlier `__getitem__` cached for an enclosing struct or tuple. Otherwise, a
+        # later lookup of the enclosing place would return the stale packed value
+        # (using a linear wire twice and leaving the newly assigned one dangling).
+        enclosing = place
+        while isinstance(enclosing, FieldAccess | TupleAccess):
+            enclosing = enclosing.parent
+            self.locals.pop(enclosing.id, None)
         # When assigning a struct value, we immediately unpack it recursively and only
         # store the leaf wires.
         is_return = isinstance(place, Variable) and is_return_var(place.name)
